@@ -191,14 +191,23 @@ def case_reshape(rng: Any, ctx: Ctx, index: int) -> None:
     dt = gen.case_dtype(rng)
     nl = int(gen.pick(rng, [1, 1, 2]))
     shapes = [tuple(int(v) for v in rng.integers(1, 5, size=int(rng.integers(1, 4)))) for _ in range(nl)]
+    same_size = nl == 2 and bool(rng.integers(2))
+    if same_size:
+        # two leaves with the same number of elements and different shapes: one explicit target fits both
+        sh0 = shapes[0]
+        n_el = int(math.prod(sh0))
+        shapes[1] = tuple(int(v) for v in gen.pick(rng, [tuple(reversed(sh0)), (n_el,), (1, n_el), sh0 + (1,)]))
     s = structure(rng, shapes, dt)
     shapes = [tuple(l.shape) for l in dense.leaves(s)]  # pytree-leaf order (dict keys are sorted)
     ranks = [len(sh) for sh in shapes]
     n0 = int(math.prod(shapes[0]))
-    form = gen.pick(rng, ['explicit', 'minus1', 'minus1', 'wrong', 'two-minus1', 'negative'])
+    form = gen.pick(rng, ['explicit', 'minus1', 'minus1', 'wrong', 'two-minus1', 'negative']) if not same_size else gen.pick(rng, ['explicit', 'explicit', 'minus1'])
     divs = [d for d in range(1, n0 + 1) if n0 % d == 0]
     d = int(gen.pick(rng, divs))
-    if form == 'explicit':
+    if form == 'explicit' and same_size:
+        new = gen.pick(rng, [shapes[0], shapes[-1], shapes[0], shapes[-1], (n0,)])     # the shape one of the leaves already has
+        LOG.count('C13.reshape', 'target=shape-of-first-leaf' if tuple(new) == shapes[0] else 'target=shape-of-last-leaf')
+    elif form == 'explicit':
         new = gen.pick(rng, [(n0,), (d, n0 // d), (1, n0), (n0 // d, 1, d)])
     elif form == 'minus1':
         new = gen.pick(rng, [(-1,), (d, -1), (-1, d), (1, -1, 1)])
